@@ -62,6 +62,10 @@ theorem tcorr_pos' (te tr t : ℝ) (htr : 0 < tr) (ht : 0 < t) : 0 < tcorr te tr
 theorem nWith_scaling' (c : Curve ℝ) (tc s : ℝ) : c.nWith tc s = c.nWith 1 (s * tc) := by
   sorry
 
+theorem n_array' (c : Curve ℝ) (s : List ℝ) (t : Option ℝ) :
+    c.nArray s t = (c.tfactor t).bind fun _ => s.mapM fun si => c.n si t := by
+  sorry
+
 /-! ### C06 -/
 
 theorem minersum_append' (c : Curve ℝ) (td scf : ℝ) (th : Option ℝ) (h1 h2 : List (ℝ × ℝ)) (d1 d2 : ℝ)
